@@ -206,7 +206,13 @@ class Interp(object):
 
     # ------------------------------------------------------------------ functions
     def call_function(self, fi, args, closure_env):
-        key = (fi.fid, tuple(sorted((k, v) for k, v in args.items())), id(closure_env) if closure_env is not None else 0)
+        ck = 0
+        if closure_env is not None:
+            try:
+                ck = hash(tuple(sorted((k, v) for k, v in closure_env.items() if _hashable(v))))
+            except TypeError:
+                ck = id(closure_env)
+        key = (fi.fid, tuple(sorted((k, v) for k, v in args.items())), ck)
         if key in self.memo:
             return self.memo[key]
         if self.depth > self.MAXDEPTH or fi.fid in self.stack:
@@ -216,7 +222,7 @@ class Interp(object):
         self.stack.append(fi.fid)
         env = dict(closure_env) if closure_env is not None else {}
         env.update(args)
-        frame = {"fi": fi, "rets": []}
+        frame = {"fi": fi, "rets": [], "cell": {}}
         try:
             if fi.is_lambda:
                 r = self.ev(frame, env, fi.node.body)
@@ -342,7 +348,7 @@ class Interp(object):
             env = dict(env)
             sub = self.res.def_fi.get(id(st))
             tag = sub.fid
-            self.closures[tag] = (sub, env)
+            self.closures[tag] = (sub, _LateEnv(env, frame.get("cell")))
             env[st.name] = V("closure", tag=tag)
             return env
         return env   # Assert, Pass, Import, Delete, Global ...
@@ -393,6 +399,8 @@ class Interp(object):
         fi = frame["fi"]
         if isinstance(target, ast.Name):
             env[target.id] = v
+            if "cell" in frame:
+                frame["cell"][target.id] = v      # latest binding of the variable in this activation (closures are late-binding)
         elif isinstance(target, (ast.Tuple, ast.List)):
             n = len(target.elts)
             for i, t in enumerate(target.elts):
@@ -549,7 +557,7 @@ class Interp(object):
             # one closure per creation environment (keyed by content so that memoisation stays finite)
             key = (sub.fid, tuple(sorted((k, v) for k, v in env.items() if _hashable(v))))
             tag = "%s#%d" % (sub.fid, abs(hash(key)) % 100000)
-            self.closures[tag] = (sub, dict(env))
+            self.closures[tag] = (sub, _LateEnv(dict(env), frame.get("cell")))
             return V("closure", tag=tag)
         if isinstance(node, ast.Call):
             return self.call(frame, env, node)
@@ -670,7 +678,7 @@ class Interp(object):
         if fv is not None and fv.k == "closure" and fv.tag is not None:
             if fv.tag in self.closures:
                 sub, cenv = self.closures[fv.tag]
-                return self.special(frame, node, sub, args, kwargs) or self.invoke(frame, node, sub, args, kwargs, cenv)
+                return self.special(frame, node, sub, args, kwargs) or self.invoke(frame, node, sub, args, kwargs, cenv.now())
             t = self.prog.functions.get(fv.tag)
             if t is not None:
                 sp = self.special(frame, node, t, args, kwargs)
@@ -781,6 +789,7 @@ class Interp(object):
             return vec(x.f if is_vec(x) else "?", ex=frozenset([("in", "user-set")]))
         if p.k == "closure" and p.tag in self.closures:
             sub, cenv = self.closures[p.tag]
+            cenv = cenv.now()
             # the projector's own frame: analyse its body on an argument of unknown frame and see which bounds it clamps with
             probe = self.invoke(frame, node, sub, [vec("?", tag="probe")], {}, cenv)
             pf = probe.f if is_vec(probe) else "?"
@@ -894,6 +903,23 @@ class Interp(object):
             return vec(f, ex=frozenset(facts), why=None)
         v = a if is_vec(a) else b
         return vec(v.f, ex=v.ex, why=v.why)
+
+
+class _LateEnv(object):
+    """Environment of a closure: the bindings at creation, overridden by the *latest* bindings of the defining activation
+    (Python closures read their free variables when they are called, not when they are created)."""
+
+    def __init__(self, created, cell):
+        self.created, self.cell = created, cell
+
+    def now(self):
+        env = dict(self.created)
+        if self.cell:
+            env.update(self.cell)
+        return env
+
+    def items(self):
+        return self.now().items()
 
 
 def _hashable(v):
